@@ -25,14 +25,15 @@ def searchIdx : IO Unit := do
     let c := (Funcs.bucketOffset (BitVec.ofNat 32 i)).toNat
     if c ≠ 512 * (i + 1) then report "bucketOffset" s!"idx={i}" (toString c) (toString (512 * (i + 1)))
   for n in grid32 do
-    let c := Funcs.indexFullGuard (BitVec.ofNat 32 n)
+    let c := Funcs.indexFullGuard (f_numKeys := BitVec.ofNat 32 n)
     let m := decide (n = 4294967295)
     if c ≠ m then report "index.put:MaxKeys" s!"numKeys={n}" (toString c) (toString m)
   for level in List.range 35 do
     for split in [0, 1, 2, 3, 5, 2^level / 2, 2^level - 1, 2^level] do
       for h in grid32 ++ [3, 4, 8, 9, 12, 77, 1023, 1025, 0xdeadbeef, 0x55555555, 0xaaaaaaaa] do
         if split < 2^32 then
-          let c := (Funcs.bucketIndex (BitVec.ofNat 8 level) (BitVec.ofNat 32 split) (BitVec.ofNat 32 h)).toNat
+          let c := (Funcs.bucketIndex (BitVec.ofNat 32 h) (f_level := BitVec.ofNat 8 level)
+            (f_splitBucketIdx := BitVec.ofNat 32 split)).toNat
           let m := bucketIdx level split h
           if c ≠ m then report "index.bucketIndex" s!"level={level} splitBucketIdx={split} hash={h}" (toString c) (toString m)
 
